@@ -2223,3 +2223,158 @@ def flw3p(ctx):
 
 def _top_level_inlined_r5(lib, fb):
     return hirq.inline_helpers(lib, fb, keep={"asca::normalise"}, prefixes=("asca::",), max_depth=2, only_if=lambda cb: re.match(r"^asca::\w+$", cb.path) is not None)
+
+
+# ---------------------------------------------------------------- CLI-9: `conv json` writes the alias file when either section has content
+
+def cli9(ctx):
+    """`asca conv json` splits a project json into word, rule and alias files. The alias file holds two sections; it must be
+    written when *either* of them has content: the call of util::to_alias is reachable on the path where only `into` is
+    non-empty and on the path where only `from` is non-empty (evaluated on the CFG with the other emptiness test forced
+    to 'empty')."""
+    from engine_flw2 import _single_def
+    r = RuleResult("CLI-9", "convert::from_json: the alias file is produced when only the `into` section or only the `from` section is non-empty", floor=2)
+    bn = ctx.bin
+    b = ctx.fn(bn, "asca_bin::cli::convert::from_json")
+    cfg = b.cfg
+    W = {i for i, t in b.calls() if (callee_path(t) or "").endswith("util::to_alias")}
+    if not W:
+        raise AnchorMissing("CLI-9: from_json does not call util::to_alias")
+    # emptiness tests of json.into / json.from
+    tests = {}
+    for i, t in b.calls():
+        if not (callee_path(t) or "").endswith("Vec::is_empty") or not t["args"] or t["args"][0].get("k") not in ("copy", "move"):
+            continue
+        d = _single_def(b, t["args"][0]["pl"]["l"])
+        fld = None
+        if d is not None and d.get("k") == "ref":
+            for p in d["pl"]["p"]:
+                if isinstance(p, dict) and p.get("n") in ("into", "from"):
+                    fld = p["n"]
+        nxt = t.get("t")
+        sw = b.blocks[nxt]["t"] if nxt is not None else {}
+        if fld and sw.get("k") == "switch":
+            vals = dict((v, tg) for v, tg in sw["vals"])
+            empty_edge = vals.get(1, sw.get("otherwise") if 0 in vals else None)
+            nonempty_edge = vals.get(0, sw.get("otherwise") if 1 in vals else None)
+            tests.setdefault(fld, []).append((nxt, empty_edge, nonempty_edge))
+    if set(tests) != {"into", "from"}:
+        raise AnchorMissing("CLI-9: from_json: emptiness tests of json.into and json.from not found (%s)" % sorted(tests))
+    for only, other in (("into", "from"), ("from", "into")):
+        # succ with the tests forced: `only` non-empty, `other` empty
+        forced = {}
+        for sw_blk, e_edge, ne_edge in tests[only]:
+            forced[sw_blk] = ne_edge
+        for sw_blk, e_edge, ne_edge in tests[other]:
+            forced[sw_blk] = e_edge
+        seen, st = {0}, [0]
+        while st:
+            x = st.pop()
+            nxts = [forced[x]] if x in forced and forced[x] is not None else cfg.succ[x]
+            for y in nxts:
+                if y not in seen:
+                    seen.add(y)
+                    st.append(y)
+        ok = bool(W & seen)
+        r.inst("from_json: with only `%s` non-empty the alias file is still produced" % only, fn_loc(b), "ok" if ok else "report")
+        if not ok:
+            r.report("CLI-9|from_json|only-%s" % only, fn_loc(b), b.path,
+                     "when a project has %s aliases but no %s aliases, from_json never reaches util::to_alias: `conv json` silently drops the alias section, and conv json -> conv asca is not the identity" % (only, other))
+    return r
+
+
+# ---------------------------------------------------------------- CLI-10: an output file is replaced, not overwritten in place
+
+def cli10(ctx):
+    """`-o out.wsca` leaves exactly the library's answer in the file, also when the file existed with longer content. Every
+    function of the CLI that writes a file does so through a primitive that truncates (fs::write, File::create) or
+    through an OpenOptions chain that says truncate(true) / create_new(true) / append is not used."""
+    r = RuleResult("CLI-10", "every file the CLI writes is written through a truncating primitive (fs::write / File::create / OpenOptions with truncate(true) or create_new(true)): no stale tail of an older, longer file survives", floor=1)
+    bn = ctx.bin
+    n = 0
+    for b in bn.bodies:
+        if b.in_test_mod() or not b.hir or b.kind == "closure":
+            continue
+        for x in hirq.walk(b.hir["body"]):
+            p = None
+            if x["e"] == "call":
+                p = hirq.strip(x["f"]).get("path") or ""
+            elif x["e"] == "mcall":
+                p = x.get("def") or ""
+            if not p:
+                continue
+            loc = fn_loc(b, x.get("ln"))
+            if p in ("std::fs::write", "std::fs::File::create", "std::fs::File::create_new"):
+                n += 1
+                r.inst("%s writes through %s" % (b.path, p.rsplit("::", 2)[-2] + "::" + p.rsplit("::", 1)[-1]), loc, "ok")
+            elif p == "std::fs::OpenOptions::open":
+                chain, y = [], x
+                while isinstance(y, dict) and y.get("e") == "mcall":
+                    flag = hirq.strip(y["args"][0]).get("lit") if y.get("args") else None
+                    chain.append((y["name"], flag))
+                    y = hirq.strip(y["recv"])
+                opts = {nm: fl for nm, fl in chain}
+                writes = opts.get("write") is True or opts.get("append") is True
+                if not writes:
+                    continue
+                n += 1
+                ok = opts.get("truncate") is True or opts.get("create_new") is True
+                r.inst("%s opens a file for writing with %s" % (b.path, ", ".join("%s(%s)" % (a, f) for a, f in reversed(chain) if a != "open")), loc, "ok" if ok else "report")
+                if not ok:
+                    r.report("CLI-10|%s|open-without-truncate" % b.path, loc, b.path,
+                             "a file is opened with write(true)%s and neither truncate(true) nor create_new(true): when the file exists and the new content is shorter, the tail of the old content stays -- `run -o` leaves stale words after the answer" % (", create(true)" if opts.get("create") else ""))
+    if n < 1:
+        raise AnchorMissing("CLI-10: no file-writing primitive call site found in the CLI")
+    return r
+
+
+# ---------------------------------------------------------------- PAN-14: a bounds guard and the indexing it protects read the same word
+
+def pan14(ctx):
+    """The interpreter keeps two words: the one being read (`word`) and the one being rewritten (`res_word`); syllables
+    appear and disappear in the second. An index that is tested against the syllable count of one of them protects an
+    access `X.syllables[i]` only if X is that same word."""
+    import collections
+    r = RuleResult("PAN-14", "an index that is compared with `<W>.syllables.len()` indexes the syllables of that same word W (never the guard on `word` and the access on `res_word`, or vice versa)", floor=3)
+    lib = ctx.lib
+
+    def root(e):
+        e = hirq.strip(e)
+        while isinstance(e, dict) and e.get("e") in ("field", "index", "unary", "addr", "mcall"):
+            e = hirq.strip(e.get("a") if e.get("e") != "mcall" else e["recv"])
+        return (e.get("hid"), e.get("local")) if isinstance(e, dict) and e.get("e") == "path" and "hid" in e else None
+    n = 0
+    for b in lib.bodies:
+        if b.in_test_mod() or not b.hir or b.kind == "closure" or not b.path.startswith(("asca::subrule::", "asca::word::", "asca::syll::")):
+            continue
+        cmpd, idxd = collections.defaultdict(set), collections.defaultdict(list)
+        for x in hirq.walk(b.hir["body"]):
+            if x["e"] == "binary" and x["op"] in ("Lt", "Le", "Gt", "Ge"):
+                for a, c in ((x["a"], x["b"]), (x["b"], x["a"])):
+                    a0 = hirq.strip(a)
+                    if a0.get("e") == "path" and "hid" in a0:
+                        for y in hirq.walk(c):
+                            if y["e"] == "mcall" and y["name"] == "len" and hirq.strip(y["recv"]).get("e") == "field" and hirq.strip(y["recv"]).get("name") == "syllables":
+                                rt = root(y["recv"])
+                                if rt:
+                                    cmpd[(a0["hid"], a0["local"])].add(rt)
+            if x["e"] == "index":
+                base, i0 = hirq.strip(x["a"]), hirq.strip(x["i"])
+                if base.get("e") == "field" and base.get("name") == "syllables" and i0.get("e") == "path" and "hid" in i0:
+                    rt = root(base)
+                    if rt:
+                        idxd[(i0["hid"], i0["local"])].append((rt, x.get("ln")))
+        for k, guards in sorted(cmpd.items(), key=lambda kv: str(kv[0])):
+            if k not in idxd:
+                continue
+            n += 1
+            bad = [(rt, ln) for rt, ln in idxd[k] if rt not in guards]
+            gn = "/".join(sorted(g[1] for g in guards))
+            r.inst("%s: index `%s` is compared with %s.syllables.len() and indexes %s" % (b.path.rsplit("::", 1)[-1], k[1], gn, "/".join(sorted({rt[1] for rt, _ in idxd[k]}))), fn_loc(b, idxd[k][0][1]), "ok" if not bad else "report")
+            if bad:
+                r.report("PAN-14|%s|%s|%s" % (b.path.rsplit("::", 1)[-1], k[1], "+".join(sorted({rt[1] for rt, _ in bad}))), fn_loc(b, bad[0][1]), b.path,
+                         "`%s` is bounds-tested against %s.syllables.len() but then indexes %s.syllables: once a syllable has been removed from the rewritten word the two counts differ and the access is out of bounds (`a t $ k > e d` on `ka.pat.k`)" % (k[1], gn, bad[0][0][1]))
+    if n < 3:
+        raise AnchorMissing("PAN-14: %d guarded syllable indices found (expected >= 3)" % n)
+    r.analysed = {"guarded_indices": n}
+    return r
